@@ -85,6 +85,9 @@ pub fn small_pool() -> Vec<Vec<ST>> {
             iri("http://example.org/p"),
             lit_lang("lit", "en-US"),
         )],
+        vec![lit_lang("lit", "en-us"), lit_lang("lit", "EN-US")],
+        vec![triple(iri("http://example.org/a"), iri("http://example.org/p"), lit_lang("lit", "en")),
+             triple(iri("http://example.org/a"), iri("http://example.org/p"), lit_lang("lit", "EN"))],
     ]
 }
 
